@@ -344,6 +344,14 @@ def build(spec, check=True):
     # would hand over *after* declaring inputs/outputs; (value_info dimension is explored separately)
     if not spec.get("keep_value_info", False):
         del mi.graph.value_info[:]
+    if spec.get("anon_out_dims", False):
+        # write the unknown dims that shape inference named unk__N anonymously (neither dim_value nor dim_param)
+        for vi_ in list(mi.graph.output) + list(mi.graph.value_info):
+            tt = vi_.type.tensor_type
+            if tt.HasField("shape"):
+                for d in tt.shape.dim:
+                    if d.dim_param.startswith("unk__"):
+                        d.ClearField("dim_param")
     B.model = mi
     return B
 
